@@ -12,6 +12,7 @@ VSC = "renamify-vscode/extension/src/cliService.ts"
 
 # (coq name, file, method, how the arguments of the method are named in the option record)
 BUILDERS = [
+    ("mcp_available", MCP, "checkAvailability"), ("mcp_version", MCP, "getCliVersion"),
     ("mcp_search", MCP, "buildSearchArgs"), ("mcp_plan", MCP, "buildPlanArgs"), ("mcp_apply", MCP, "buildApplyArgs"),
     ("mcp_undo", MCP, "undo"), ("mcp_redo", MCP, "redo"), ("mcp_history", MCP, "history"), ("mcp_status", MCP, "status"),
     ("mcp_preview", MCP, "buildPreviewArgs"), ("mcp_rename", MCP, "rename"), ("mcp_replace", MCP, "replace"),
@@ -229,6 +230,23 @@ class Tr:
                 out.append(("if", cond, then, els))
                 i = be
                 continue
+            m = re.match(r"try\s*\{", rest)
+            if m:
+                bs_ = i + m.end() - 1
+                be = balanced(text, bs_, "{", "}")
+                out.extend(self.block(text[bs_ + 1:be - 1], env, depth))
+                i = be
+                # catch / finally blocks must not build command lines
+                while True:
+                    m2 = re.match(r"\s*(catch\s*(\([^)]*\))?|finally)\s*\{", text[i:])
+                    if not m2:
+                        break
+                    cb = i + m2.end() - 1
+                    ce = balanced(text, cb, "{", "}")
+                    if re.search(r"\bargs\b|execa\s*\(|runCli\s*\(|executeCommand\s*\(", text[cb:ce]):
+                        raise TranslateError(f"{self.fname}: a catch/finally block builds or runs a command line")
+                    i = ce
+                continue
             m = re.match(r"for\s*\(\s*const\s+(\w+)\s+of\s+([\w.]+)\s*\)\s*\{", rest)
             if m:
                 bs_ = i + m.end() - 1
@@ -266,7 +284,7 @@ class Tr:
                 i = pe
                 continue
             # a statement that must not touch args: runCli(['undo', id, ...]) / executeCommand(['status'], ..) inline arrays
-            m = re.match(r"(?:const\s+\w+\s*=\s*)?(?:return\s+)?(?:await\s+)?this\.(?:runCli|executeCommand)\s*\(\s*\[", rest)
+            m = re.match(r"(?:const\s+\w+\s*=\s*)?(?:return\s+)?(?:await\s+)?(?:this\.(?:runCli|executeCommand)\s*\(|execa\s*\(\s*this\.renamifyPath\s*,)\s*\[", rest)
             if m:
                 as_ = i + m.end() - 1
                 ae = balanced(text, as_, "[", "]")
